@@ -501,5 +501,6 @@ def _finalizer_dask_op(
     if write is None:
         return _root
 
-    _, rr = _root.flush(write, leftPartId=1, finalise=True)
+    # header/left part goes first: use the first part id the writer allows
+    _, rr = _root.flush(write, leftPartId=write.min_part, finalise=True)
     return rr
